@@ -196,7 +196,9 @@ CLAIMS = {
     ),
     "C12": (
         "Theorems C12_enter, C12_exit, C12_current, C12_noninterference, C12_token_stable, C12_open_stable, C12_restore (over "
-        "any history of other tasks' operations), C12_nested, C12_parent_default, C12_inherit. " + KERNEL_NOTE,
+        "any history of other tasks' operations), C12_nested, C12_parent_default, C12_inherit; for service / factory tasks "
+        "(Props/C12_task.lean) C12_task_own_context (spawn + new + enter: the task's current context is its own, a child of what "
+        "was current where it was started) and C12_task_explicit_parent. " + KERNEL_NOTE,
         "Partial: task-locality is contextvars' semantics; in the model it holds by construction, so the weight is on the "
         "correspondence (several worker tasks sampling current_context(); blocks left by cancellation, or cancelled while "
         "their teardown runs - twins C12_exit_mid, _restore_mid, _nested_mid, _current_in_teardown_disciplined_mid). The "
